@@ -63,6 +63,7 @@ func vfC14SameIntMap(a, b map[uint8]int) bool {
 // tables indexed by the character (130 entries, scanned entry by entry): with symbolic bytes
 // the engine would need one path per set of occurring characters and 130-way ite cells.
 func vfC14EnumAlign(alphabet, n, L int, alpha []uint8) (*align, [][]uint8) {
+	names := []string{"s0", "s1", "s2", "s3", "s4", "s5", "s6", "s7"}
 	al := NewAlign(alphabet)
 	orig := make([][]uint8, n)
 	for i := 0; i < n; i++ {
@@ -72,7 +73,7 @@ func vfC14EnumAlign(alphabet, n, L int, alpha []uint8) (*align, [][]uint8) {
 			s[j] = alpha[nondetRange(0, len(alpha)-1)]
 			orig[i][j] = s[j]
 		}
-		if err := al.AddSequenceChar(vfNames[i], s, ""); err != nil {
+		if err := al.AddSequenceChar(names[i], s, ""); err != nil {
 			panic("harness: cannot build alignment: " + err.Error())
 		}
 	}
@@ -277,12 +278,12 @@ func vfC14CheckProfile(p *CountProfile, orig [][]uint8, n, L int) {
 }
 
 // H_C14_profile: NewCountProfileFromAlignment holds the per-site count of every residue; a site outside is an error, never a panic.
-// bounds: n<=2 rows, L<=2 columns, every content over the residues {A,C,N,-,*,~} (no lower-case letters, caveat a), enumerated; site any 64-bit int
+// bounds: n<=2 rows, L<=2 columns, every content over the residues {A,N,-,*,~} (no lower-case letters, caveat a), enumerated; site any 64-bit int
 // outside: other residues; lower-case residues (documentation silent on case folding of profiles: open question, not asserted); bytes >= 0x80
 func H_C14_profile() {
 	n := nondetRange(1, 2)
 	L := nondetRange(1, 2)
-	al, orig := vfC14EnumAlign(NUCLEOTIDS, n, L, []uint8{'A', 'C', 'N', '-', '*', '~'})
+	al, orig := vfC14EnumAlign(NUCLEOTIDS, n, L, []uint8{'A', 'N', '-', '*', '~'})
 	p := NewCountProfileFromAlignment(al)
 	verifReach("profile")
 	vfC14CheckProfile(p, orig, n, L)
